@@ -608,6 +608,11 @@ def corpus_net(rng, name):
             y = b.pool(x, "AVERAGE_POOL_2D", (2, 2), (1, 4), "VALID")
             z = b.reshape(y, [1, 84])
         return b.finish([z])
+    if name == "known_sigmoid_relu6":
+        # int16 LOGISTIC -> RELU6: both are packed into one pass (one average pool), the command generator keeps the last activation
+        b = make_builder(rng, name, "int16")
+        x = b.input([1, 4, 4, 8], scale=0.001, zp=0)
+        return b.finish([b.unary("RELU6", b.unary("LOGISTIC", x))])
     if name == "known_protected_reshape_inplace":
         b = make_builder(rng, name, "int8")
         x = b.input([1, 8, 12, 17], scale=0.05, zp=3)
@@ -850,8 +855,11 @@ def _worker(job):
                                int((o.opts[1] if o.opts else {}).get("Padding", -1)),
                                max(int((o.opts[1] if o.opts else {}).get("StrideW", 1)), int((o.opts[1] if o.opts else {}).get("StrideH", 1))))
                               for o in net.ops])
-        with c01_lib.WeightCapture() as capture:
+        import c01_packing
+
+        with c01_lib.WeightCapture() as capture, c01_packing.Capture() as pcap:
             res = pipeline.compile_net(data, opts, name=f"n{idx}")
+        out["packing"] = pcap.cases
         out.update(status=res.status, exc=(type(res.exc).__name__ + ": " + str(res.exc))[:300] if res.exc is not None else "",
                    exc_site=pipe_common.exc_site(res.tb, res.exc))
         if res.status == "ok" and res.out_model is not None:
@@ -979,6 +987,21 @@ def transpose_then_activation(o):
                for kind, ins, outs, faf, pad, stride in g)
 
 
+def tanh_sigmoid_next_to_relu(o):
+    """int16 TANH / LOGISTIC (not lowered to a table) whose input comes from, or whose output goes to, a RELU-type operator"""
+    if o.get("dtype") != "int16":
+        return False
+    g = o.get("src_graph") or []
+    relu = ("RELU", "RELU6", "RELU_N1_TO_1")
+    prod = {outs[0]: kind for kind, ins, outs, faf, pad, stride in g if outs}
+    for kind, ins, outs, faf, pad, stride in g:
+        if kind in ("TANH", "LOGISTIC") and ins and prod.get(ins[0]) in relu:
+            return True
+        if kind in relu and ins and prod.get(ins[0]) in ("TANH", "LOGISTIC"):
+            return True
+    return False
+
+
 ELEMENTWISE_KINDS = ("ADD", "SUB", "MUL", "MINIMUM", "MAXIMUM", "ABS", "LEAKY_RELU", "PRELU", "HARD_SWISH", "TANH", "LOGISTIC", "EXP",
                      "SQUARED_DIFFERENCE")
 
@@ -1071,6 +1094,10 @@ def classify_failure(o, ans):
         return "mean-over-unit-axes-drops-requantisation"
     if ans.endswith("verdict=fail") and protected_tensor_reshaped_into_elementwise(o):
         return "write-protected-tensor-shares-memory-with-reshape-copy"
+    if ans.endswith("verdict=fail") and tanh_sigmoid_next_to_relu(o):
+        import c01_packing
+
+        return c01_packing.KEY_TWO_ACTIVATIONS
     if ans.endswith("verdict=fail") and transpose_then_activation(o):
         return "transpose-then-packed-activation-loses-transposition"
     if ans.endswith("verdict=fail") or ans.startswith("err:out:"):
@@ -1115,7 +1142,7 @@ def replay(ck, path):
 
 def main():
     ck = Check("C01", "translation_validation")
-    ck.lean_stage(["VelaVerif.Props.C01", "VelaVerif.Props.C01Rewrites", "VelaVerif.Props.C01Wide"])
+    ck.lean_stage(["VelaVerif.Props.C01", "VelaVerif.Props.C01Rewrites", "VelaVerif.Props.C01Wide", "VelaVerif.Props.C01Packing"])
     if ck.replay_arg:
         replay(ck, ck.replay_arg)
     import pipeline
@@ -1128,6 +1155,13 @@ def main():
     t0 = time.time()
     rw = c01_rewrites.run(ck)
     ck.count("seconds_rewrite_streams", round(time.time() - t0))
+    # pass packing: the model of pack_into_passes (Model/PassPacking.lean) against the real function on generated graphs; the
+    # subgraphs of the networks compiled below are judged after the compile stage
+    import c01_packing
+
+    t0 = time.time()
+    pk = c01_packing.run(ck)
+    ck.count("seconds_packing_generated_stream", round(time.time() - t0))
     n = 40000 if ck.thorough else 6000
     k_inputs = 5 if ck.thorough else 4
     jobs = [(0, 0, "known_" + nm, k_inputs) for nm in ("slice_relu", "fused_act_relu", "pad_conv_reshape", "quantize_relu", "reshape_relu",
@@ -1139,7 +1173,7 @@ def main():
                                                               "mean_unit_axes", "concat_batch_axis",
                                                               "resize_reshape", "mean_reshape", "widepool_reshape",
                                                               "transpose_relu", "sqdiff_reshape", "dilation3_uint8", "shared_dilation3", "shared_tconv",
-                                                              "prelu_reshape", "transpose_lut_mul", "protected_reshape_inplace")]
+                                                              "prelu_reshape", "transpose_lut_mul", "protected_reshape_inplace", "sigmoid_relu6")]
     jobs += [(ck.seed, i, PROFILES[i % len(PROFILES)], k_inputs) for i in range(n)]
     ctx = multiprocessing.get_context("fork")
     t0 = time.time()
@@ -1156,6 +1190,14 @@ def main():
             outs += list(ex.map(_worker, jobs[k:k + 500], chunksize=1))
     ck.count("seconds_compile_and_build_requests", round(time.time() - t0))
     lines, owners = [], []
+    t0p = time.time()
+    pcases = []
+    for o in outs:
+        for c in o.get("packing") or []:
+            c["origin"] = f"network {o['idx']} {o['profile']} seed {o['seed']} {o.get('src_ops')} {o.get('opts')}"
+            pcases.append(c)
+    c01_packing.judge(ck, pcases, "compiled", pk)
+    ck.count("seconds_packing_compiled_corpus", round(time.time() - t0p))
     for o in outs:
         if "harness_exception" in o:
             raise common.InfraError("pipeline worker failed:\n" + o["harness_exception"])
@@ -1230,8 +1272,10 @@ def main():
         ck.sample({"network": o["desc"], "opts": o["opts"], "features": o.get("features"), "verdict": ans[:300]})
     ck.finish({
         "programs": judged,
-        "evaluations": len(outs) + rw.evaluations,
-        "distinct_nontrivial": len(nontrivial) + len(rw.nontrivial),
+        "evaluations": len(outs) + rw.evaluations + pk.evaluations,
+        "distinct_nontrivial": len(nontrivial) + len(rw.nontrivial) + len(pk.nontrivial),
+        "packing_evaluations": pk.evaluations,
+        "packing_distinct": len(pk.nontrivial),
         "rewrite_stream_evaluations": rw.evaluations,
         "rewrite_stream_distinct": len(rw.nontrivial),
         "inputs_per_network": k_inputs,
@@ -1239,7 +1283,10 @@ def main():
                 "models executed by Lean on every input set; non-trivial = at least one NPU operation was executed by the "
                 "stream executor and at least one output has a judged tolerance class; distinct by (profile, index, options). Rewrite "
                 "streams: evaluation = one operator (group) built from the repo's classes and rewritten by the real function, compared with "
-                "the Lean model and judged by the Lean per-element semantics; distinct by the operator's parameters",
+                "the Lean model and judged by the Lean per-element semantics; distinct by the operator's parameters. Pass packing: evaluation = "
+                "one subgraph (generated with the repo's classes, or of a compiled network) packed by the real pack_into_passes, compared "
+                "with the Lean model and judged by the Lean Spec clauses (partition, order, pass shape) on the real pass list; distinct by "
+                "the graph description",
         "exhaustive": False,
         "trusted_base_extra": [
             "Spec/NpuSem.lean: hardware arithmetic transcribed from Vela's own register usage and the public register "
